@@ -172,7 +172,7 @@ def strip_end(e):
 # ------------------------------------------------------------------------------------ generators
 def gen_outcome(rng, p_err=0.3):
     if rng.random() < p_err:
-        return {"err": {"cls": rng.choice(["ValueError", "KeyError", "Boom"]), "msg": rng.choice(["boom", "bad", ""])}}
+        return {"err": {"cls": rng.choice(["ValueError", "KeyError", "Boom", "Boom", "InvocationError"]), "msg": rng.choice(["boom", "bad", ""])}}
     return {"ok": rng.choice(TOKENS)}
 
 
@@ -332,6 +332,7 @@ def run_execution(script, seed, crash_p=0.25, fault_p=0.1, max_inv=40, limits=No
         if plan.get("fail_sync_call") is not None or plan.get("fail_any_call") is not None:
             plan["fail_exc"] = make_fail_exc(plan.get("fail_kind", "retriable"))
         start_tbl = canon_real_table(backend)
+        backend.invocation_no = k
         res = run_invocation(script, backend, plan, seed=rng.randrange(1 << 30), limits=limits)
         e = end_of(res, backend)
         idmap = {}
@@ -436,8 +437,10 @@ def compare(ctx, ex, component):
         if ilog != mlog:
             ctx.disagree(component, case, {"inv": k, "logs": ilog}, {"inv": k, "logs": mlog}, f"invocation {k}: emitted log records differ")
             return a
-        itbl = inv["tbl"]
-        mtbl = sorted(hidden_filter(mo["tbl"]), key=lambda r: r["pos"])
+        def norm(rows):      # an empty payload does not exist on the wire: "" and absent are the same recorded result
+            return [dict(r, result=None) if r.get("result") == "" and r.get("kind") in ("context", "step", "wfc") else r for r in rows]
+        itbl = norm(inv["tbl"])
+        mtbl = norm(sorted(hidden_filter(mo["tbl"]), key=lambda r: r["pos"]))
         if itbl != mtbl:
             d = [(x, y) for x, y in zip(itbl, mtbl) if x != y][:2]
             ctx.disagree(component, case, {"inv": k, "tbl_diff": d, "n": len(itbl)}, {"n": len(mtbl)}, f"invocation {k}: backend table differs")
